@@ -56,6 +56,8 @@ HOME = {
     ("src/bitvector/mod.rs", "BitVectorMut"): "src/bitvector/mod.rs",
     ("src/qvector/rs_qvector/rs_support_plain.rs", "QVector"): "src/qvector/mod.rs",
     ("src/qvector/rs_qvector.rs", "QVector"): "src/qvector/mod.rs",
+    ("src/qvector/rs_qvector.rs", "RSSupportPlain"): "src/qvector/rs_qvector/rs_support_plain.rs",
+    ("src/qvector/rs_qvector.rs", "select_in_word_u128"): "src/utils/mod.rs",
     ("src/darray/mod.rs", "BitVector"): "src/bitvector/mod.rs",
     ("src/darray/mod.rs", "select_in_word"): "src/utils/mod.rs",
 }
@@ -107,6 +109,40 @@ TARGETS = list(GL.TARGETS) + [
     ("src/qvector/rs_qvector/rs_support_plain.rs", "RSSupportPlain", "block_index", "g_rss512_block_index", {"B_SIZE": 512}),
     ("src/qvector/rs_qvector/rs_support_plain.rs", "RSSupportPlain", "rank_block", "g_rss512_rank_block", {"B_SIZE": 512}),
     ("src/qvector/rs_qvector/rs_support_plain.rs", "RSSupportPlain", "select_block", "g_rss512_select_block", {"B_SIZE": 512}),
+    # ---- group qv2: QVector accessors (DataLine leaves are T3's)
+    ("src/qvector/mod.rs", "QVector", "get_unchecked", "g_qv_get_unchecked", {}),
+    ("src/qvector/mod.rs", "QVector", "get", "g_qv_get", {}),
+    # ---- group rsq: RSQVector (both block sizes)
+    ("src/qvector/rs_qvector.rs", "RSQVector", "select_intra_block", "g_rsq256_select_intra_block", {"S": "RSSupportPlain", "B_SIZE": 256}),
+    ("src/qvector/rs_qvector.rs", "RSQVector", "rank_intra_block", "g_rsq256_rank_intra_block", {"S": "RSSupportPlain", "B_SIZE": 256}),
+    ("src/qvector/rs_qvector.rs", "RSQVector", "len", "g_rsq256_len", {"S": "RSSupportPlain", "B_SIZE": 256}),
+    ("src/qvector/rs_qvector.rs", "RSQVector", "is_empty", "g_rsq256_is_empty", {"S": "RSSupportPlain", "B_SIZE": 256}),
+    ("src/qvector/rs_qvector.rs", "RSQVector", "get_unchecked", "g_rsq256_get_unchecked", {"S": "RSSupportPlain", "B_SIZE": 256}),
+    ("src/qvector/rs_qvector.rs", "RSQVector", "get", "g_rsq256_get", {"S": "RSSupportPlain", "B_SIZE": 256}),
+    ("src/qvector/rs_qvector.rs", "RSQVector", "rank_unchecked", "g_rsq256_rank_unchecked", {"S": "RSSupportPlain", "B_SIZE": 256}),
+    ("src/qvector/rs_qvector.rs", "RSQVector", "rank", "g_rsq256_rank", {"S": "RSSupportPlain", "B_SIZE": 256}),
+    ("src/qvector/rs_qvector.rs", "RSQVector", "occs_unchecked", "g_rsq256_occs_unchecked", {"S": "RSSupportPlain", "B_SIZE": 256}),
+    ("src/qvector/rs_qvector.rs", "RSQVector", "occs", "g_rsq256_occs", {"S": "RSSupportPlain", "B_SIZE": 256}),
+    ("src/qvector/rs_qvector.rs", "RSQVector", "occs_smaller_unchecked", "g_rsq256_occs_smaller_unchecked", {"S": "RSSupportPlain", "B_SIZE": 256}),
+    ("src/qvector/rs_qvector.rs", "RSQVector", "occs_smaller", "g_rsq256_occs_smaller", {"S": "RSSupportPlain", "B_SIZE": 256}),
+    ("src/qvector/rs_qvector.rs", "RSQVector", "rank_block_unchecked", "g_rsq256_rank_block_unchecked", {"S": "RSSupportPlain", "B_SIZE": 256}),
+    ("src/qvector/rs_qvector.rs", "RSQVector", "select", "g_rsq256_select", {"S": "RSSupportPlain", "B_SIZE": 256}),
+    ("src/qvector/rs_qvector.rs", "RSQVector", "select_unchecked", "g_rsq256_select_unchecked", {"S": "RSSupportPlain", "B_SIZE": 256}),
+    ("src/qvector/rs_qvector.rs", "RSQVector", "select_intra_block", "g_rsq512_select_intra_block", {"S": "RSSupportPlain", "B_SIZE": 512}),
+    ("src/qvector/rs_qvector.rs", "RSQVector", "rank_intra_block", "g_rsq512_rank_intra_block", {"S": "RSSupportPlain", "B_SIZE": 512}),
+    ("src/qvector/rs_qvector.rs", "RSQVector", "len", "g_rsq512_len", {"S": "RSSupportPlain", "B_SIZE": 512}),
+    ("src/qvector/rs_qvector.rs", "RSQVector", "is_empty", "g_rsq512_is_empty", {"S": "RSSupportPlain", "B_SIZE": 512}),
+    ("src/qvector/rs_qvector.rs", "RSQVector", "get_unchecked", "g_rsq512_get_unchecked", {"S": "RSSupportPlain", "B_SIZE": 512}),
+    ("src/qvector/rs_qvector.rs", "RSQVector", "get", "g_rsq512_get", {"S": "RSSupportPlain", "B_SIZE": 512}),
+    ("src/qvector/rs_qvector.rs", "RSQVector", "rank_unchecked", "g_rsq512_rank_unchecked", {"S": "RSSupportPlain", "B_SIZE": 512}),
+    ("src/qvector/rs_qvector.rs", "RSQVector", "rank", "g_rsq512_rank", {"S": "RSSupportPlain", "B_SIZE": 512}),
+    ("src/qvector/rs_qvector.rs", "RSQVector", "occs_unchecked", "g_rsq512_occs_unchecked", {"S": "RSSupportPlain", "B_SIZE": 512}),
+    ("src/qvector/rs_qvector.rs", "RSQVector", "occs", "g_rsq512_occs", {"S": "RSSupportPlain", "B_SIZE": 512}),
+    ("src/qvector/rs_qvector.rs", "RSQVector", "occs_smaller_unchecked", "g_rsq512_occs_smaller_unchecked", {"S": "RSSupportPlain", "B_SIZE": 512}),
+    ("src/qvector/rs_qvector.rs", "RSQVector", "occs_smaller", "g_rsq512_occs_smaller", {"S": "RSSupportPlain", "B_SIZE": 512}),
+    ("src/qvector/rs_qvector.rs", "RSQVector", "rank_block_unchecked", "g_rsq512_rank_block_unchecked", {"S": "RSSupportPlain", "B_SIZE": 512}),
+    ("src/qvector/rs_qvector.rs", "RSQVector", "select", "g_rsq512_select", {"S": "RSSupportPlain", "B_SIZE": 512}),
+    ("src/qvector/rs_qvector.rs", "RSQVector", "select_unchecked", "g_rsq512_select_unchecked", {"S": "RSSupportPlain", "B_SIZE": 512}),
 ]
 
 # group -> (source file, owner types or None, first index in TARGETS that belongs to T5)
@@ -117,6 +153,7 @@ GROUPS = {
     "rsw2": ("src/bitvector/rs_wide.rs", None),
     "rss": ("src/qvector/rs_qvector/rs_support_plain.rs", None),
     "rsq": ("src/qvector/rs_qvector.rs", None),
+    "qv2": ("src/qvector/mod.rs", None),
 }
 # which generated files a group's file must import (T3 leaves and earlier T5 groups)
 GROUP_IMPORTS = {
@@ -124,12 +161,13 @@ GROUP_IMPORTS = {
     "rsn2": ["LeavesUtils", "LeavesRSN", "FnsBv"],
     "rsw2": ["LeavesUtils", "LeavesRSW", "FnsBv"],
     "rss": ["LeavesSB"],
-    "rsq": ["LeavesSB", "LeavesLine", "LeavesQV", "FnsRss"],
+    "qv2": ["LeavesLine", "LeavesQV"],
+    "rsq": ["LeavesUtils", "LeavesSB", "LeavesLine", "LeavesQV", "FnsRss", "FnsQv2"],
 }
 
 GL.RESERVED |= set("""while_loop for_loop iter_loop Next Brk Ret Done Retd len concat ounwrap wshl wshr fsqrt fuel Some
     None option step fin r s v zwrap ziadd zisub zshamt Z left right inl inr pair fst snd S O nil cons xH xO xI N0 Npos
-    Z0 Zpos Zneg eq_refl conj I""".split())
+    Z0 Zpos Zneg eq_refl conj I opt_ltb nthN""".split())
 
 
 # ------------------------------------------------------------------------------ item index with trait info
@@ -461,6 +499,23 @@ class Parser5(Parser):
     def expr_nostruct(self):
         return self.expr(1)
 
+    def primary(self):
+        if self.at("if") and self.at("let", 1):
+            self.i += 2
+            if not (self.at("Some") and self.at("(", 1)):
+                self.fail("`if let` pattern (only `Some(x)`)")
+            self.i += 2
+            x = self.ident()
+            self.expect(")")
+            self.expect("=")
+            e = self.expr_nostruct()
+            th = self.block()
+            if not self.accept("else"):
+                self.fail("`if let` without `else`")
+            el = self.block()
+            return ("iflet", x, e, th, el)
+        return super().primary()
+
     def unary(self):
         if self.accept("&"):
             self.accept("mut")
@@ -526,6 +581,10 @@ class FnT5(FnTranslator):
         self.sigs = world.sigs
         self.sigs_coq = {s.coq for s in self.sigs.values()}
         self.subst = {}
+        self.tsubst = {k: v for k, v in subst.items() if isinstance(v, str)}
+        self.monos = [tuple(sorted(subst.items(), key=str)), tuple(sorted((k, v) for k, v in subst.items() if not isinstance(v, str)))]
+        self.nominal = {}
+        subst = {k: v for k, v in subst.items() if not isinstance(v, str)}
         self.cparams = dict(subst)
         if unit.cparams != self.cparams:
             unit._consts = {}      # values of associated consts depend on the const generic parameters
@@ -533,6 +592,8 @@ class FnT5(FnTranslator):
         start = self.pick(unit, owner, fname, trait)
         p = Parser5(unit.toks, start, self.where, {})
         _, self.selfkind, self.params, self.ret, self.body = p.fn()
+        self.ret = self.sub_t(self.ret)
+        self.params = [(n, self.sub_t(t)) for n, t in self.params]
         body_open = next(j for j in range(start, p.i) if unit.toks[j].kind == "op" and unit.toks[j].text == "{")
         self.header = " ".join(unit.src[unit.toks[start].pos:unit.toks[body_open].pos].split())
         self.used = {t.text for t in unit.toks[start:p.i] if t.kind == "id"}
@@ -576,9 +637,23 @@ class FnT5(FnTranslator):
             self.fail("struct `%s` (not found; add its file to HOME)" % name)
         return u
 
+    def sub_t(self, t):
+        """generic type parameters replaced by the types of the monomorphisation"""
+        if isinstance(t, tuple):
+            if t[0] == "struct" and t[1] in self.tsubst:
+                return ("struct", self.tsubst[t[1]])
+            if t[0] in ("array", "slice", "option"):
+                return (t[0], self.sub_t(t[1])) + tuple(t[2:])
+            if t[0] == "tuple":
+                return ("tuple", tuple(self.sub_t(x) for x in t[1]))
+        return t
+
     def fields_of(self, sname, rel=None):
         u = self.struct_unit(sname, rel)
-        return u, u.struct_fields(sname, self.where)
+        if u.cparams != self.cparams:
+            u._consts = {}
+            u.cparams = self.cparams
+        return u, [(n, self.sub_t(t)) for n, t in u.struct_fields(sname, self.where)]
 
     def is_record(self, t, rel=None):
         return isinstance(t, tuple) and t[0] == "struct" and len(self.fields_of(t[1], rel)[1]) != 1
@@ -697,9 +772,9 @@ class FnT5(FnTranslator):
     def method_sig(self, sname, rel, m):
         u = self.struct_unit(sname, rel)
         key = (u.rel, sname, m)
-        mono = key + (tuple(sorted(self.cparams.items())),)
-        if self.cparams and mono in self.sigs:
-            return self.sigs[mono]
+        for mo in self.monos:
+            if mo and key + (mo,) in self.sigs:
+                return self.sigs[key + (mo,)]
         if key not in self.sigs:
             self.fail("call to `%s::%s` (not a translated function)" % (sname, m))
         return self.sigs[key]
@@ -733,6 +808,28 @@ class FnT5(FnTranslator):
             if is_list(t):
                 return t[1]
             return super().ty(e, exp, env)
+        if k == "path" and len(e[1]) == 2 and e[1][0] in self.tsubst:
+            u = self.struct_unit(self.tsubst[e[1][0]])
+            return u.const(self.tsubst[e[1][0]], e[1][1], self.where)[0]
+        if k == "iflet":
+            ot = self.ty(e[2], None, env)
+            if not (isinstance(ot, tuple) and ot[0] == "option"):
+                self.fail("`if let Some(..)` on a value of type %s" % (ot,))
+            env2 = dict(env)
+            env2[e[1]] = (e[1], ot[1], -1)
+            st, old = self.struct_type_of(e[2], env), self.nominal.get(e[1])
+            if st is not None:
+                self.nominal[e[1]] = st
+            else:
+                self.nominal.pop(e[1], None)
+            try:
+                t1 = self.ty(e[3], exp, env2)
+            finally:
+                if old is not None:
+                    self.nominal[e[1]] = old
+                else:
+                    self.nominal.pop(e[1], None)
+            return t1 or self.ty(e[4], exp, env)
         if k == "cast" and e[2] == "f64":
             return "f64"
         if k == "cast" and self.sqrt_pattern(e):
@@ -741,7 +838,12 @@ class FnT5(FnTranslator):
             m = e[2]
             if m in ("count_ones", "leading_zeros", "wrapping_mul", "wrapping_add", "wrapping_sub"):
                 return super().ty(e, exp, env)
+            st = self.struct_type_of(e[1], env)
+            if st is not None and e[1] != ("self",) and self.chain(e[1]) is None:
+                return self.norm_ret(self.method_sig(st[0], st[1], m))
             rt = self.ty(e[1], None, env)
+            if m == "get" and is_list(rt) and len(e[3]) == 1:
+                return ("option", rt[1])
             if m == "get_unchecked" and is_list(rt) and len(e[3]) == 1:
                 return rt[1]
             if m == "len" and is_list(rt) and not e[3]:
@@ -880,13 +982,17 @@ class FnT5(FnTranslator):
             return self.struct_type_of(e[1] if k == "ref" else e[2], env)
         if k == "self":
             return (self.owner, self.unit.rel)
+        if k == "var":
+            return self.nominal.get(e[1]) if e[1] in env else None
+        if k == "block" and not e[1] and e[2] is not None:
+            return self.struct_type_of(e[2], env)
         if k == "field":
             names = self.chain(e)
             if names is None:
                 return None
             t, rel = self.raw_chain_type(names)
             return (t[1], self.struct_unit(t[1], rel).rel) if isinstance(t, tuple) and t[0] == "struct" else None
-        if k == "index" or (k == "mcall" and e[2] == "get_unchecked"):
+        if k == "index" or (k == "mcall" and e[2] in ("get_unchecked", "get")):
             names = self.chain(e[1])
             if names is None:
                 return None
@@ -898,6 +1004,8 @@ class FnT5(FnTranslator):
     def raw_chain_type(self, names):
         t, rel = ("struct", self.owner), self.unit.rel
         for n in names:
+            if not (isinstance(t, tuple) and t[0] == "struct"):
+                self.fail("field `.%s` of a non-struct" % n)
             u, fl = self.fields_of(t[1], rel)
             d = dict(fl)
             if n not in d:
@@ -915,9 +1023,9 @@ class FnT5(FnTranslator):
             key = (u.rel if u else self.unit.rel, owner, segs[1])
         else:
             self.fail("call `%s`" % "::".join(segs))
-        mono = key + (tuple(sorted(self.cparams.items())),)
-        if self.cparams and mono in self.sigs:
-            return self.sigs[mono]
+        for mo in self.monos:
+            if mo and key + (mo,) in self.sigs:
+                return self.sigs[key + (mo,)]
         if key not in self.sigs:
             self.fail("call to `%s` (not a translated function)" % "::".join(segs))
         return self.sigs[key]
@@ -970,6 +1078,33 @@ class FnT5(FnTranslator):
                 i = self.val(e[2], "usize", cx)
                 return app("idx", a, i), False
             return super().emit(e, exp, cx)
+        if k == "path" and len(e[1]) == 2 and e[1][0] in self.tsubst:
+            u = self.struct_unit(self.tsubst[e[1][0]])
+            if u.cparams != self.cparams:
+                u._consts = {}
+                u.cparams = self.cparams
+            c = u.const(self.tsubst[e[1][0]], e[1][1], self.where)
+            return GL.fmt_const(c[1], c[0]), True
+        if k == "iflet":
+            t = self.need(e, exp, env)
+            ot = self.ty(e[2], None, env)
+            v = self.val(e[2], None, cx)
+            sub = Cx(self, env, cx.depth + 1)
+            x = sub.bind(e[1], ot[1])
+            st = self.struct_type_of(e[2], env)
+            old = self.nominal.get(e[1])
+            if st is not None:
+                self.nominal[e[1]] = st
+            else:
+                self.nominal.pop(e[1], None)
+            a1 = self.block_val(e[3], t, sub)
+            if old is not None:
+                self.nominal[e[1]] = old
+            else:
+                self.nominal.pop(e[1], None)
+            a2 = self.block_val(e[4], t, Cx(self, env, cx.depth + 1))
+            return "\n".join(["(match %s with" % v, "| Some %s =>" % x] + ["    " + l for a in a1 for l in a.split("\n")] +
+                             ["| None =>"] + ["    " + l for a in a2 for l in a.split("\n")] + ["end)"]), False
         if k == "cast" and self.sqrt_pattern(e):
             x = self.sqrt_pattern(e)
             t = self.need(x, None, env)
@@ -980,7 +1115,14 @@ class FnT5(FnTranslator):
             m = e[2]
             if m in ("count_ones", "leading_zeros", "wrapping_mul", "wrapping_add", "wrapping_sub"):
                 return super().emit(e, exp, cx)
+            st = self.struct_type_of(e[1], env)
+            if st is not None and e[1] != ("self",) and self.chain(e[1]) is None:
+                return self.emit_call5(self.method_sig(st[0], st[1], m), e[1], e[3], cx)
             rt = self.ty(e[1], None, env)
+            if m == "get" and is_list(rt):
+                a = self.val(e[1], None, cx)
+                self.need(e[3][0], "usize", env, "usize")
+                return app("nthN", a, self.val(e[3][0], "usize", cx)), True
             if m == "get_unchecked" and is_list(rt):
                 a = self.val(e[1], None, cx)
                 self.need(e[3][0], "usize", env, "usize")
@@ -1012,6 +1154,13 @@ class FnT5(FnTranslator):
                 return super().emit(e, exp, cx)
             return self.emit_call5(self.static_sig(segs), None, e[3], cx)
         return super().emit(e, exp, cx)
+
+    def block_val(self, blk, t, cx):
+        """lines of the outcome-typed term of a block used as a value of type t"""
+        if blk[0] != "block":
+            blk = ("block", [], blk)
+        fl = ValFlow(t)
+        return self.seq(blk[1], blk[2], cx, fl)
 
     def emit_call5(self, sig, recv, args, cx):
         if sig.selfkind == "mut":
@@ -1052,6 +1201,10 @@ class FnT5(FnTranslator):
         env = cx.env
         if op in GL.CMP or op in ("+", "-"):
             t = self.ty(A, None, env) or self.ty(B, None, env)
+            if op in ("<", ">") and isinstance(t, tuple) and t[0] == "option" and t[1] in INT:
+                self.need(A, t, env, t), self.need(B, t, env, t)
+                a, b = self.val(A, t, cx), self.val(B, t, cx)
+                return (app("opt_ltb", a, b) if op == "<" else app("opt_ltb", b, a)), True
             if t in SINT:
                 self.need(A, t, env, t), self.need(B, t, env, t)
                 a, b = self.val(A, t, cx), self.val(B, t, cx)
@@ -1196,8 +1349,15 @@ class FnT5(FnTranslator):
                 if isinstance(s[1], list):
                     names = [cx.bind(a, ta) for a, ta in zip(s[1], t[1])]
                     pat = ("(%s)" if not pure else "'(%s)") % ", ".join(names)
+                    for a in s[1]:
+                        self.nominal.pop(a, None)
                 else:
+                    st = self.struct_type_of(s[3], cx.env)
                     pat = cx.bind(s[1], t)
+                    if st is not None:
+                        self.nominal[s[1]] = st
+                    else:
+                        self.nominal.pop(s[1], None)
                 L.append("let%s %s := %s in" % ("" if pure else "!", pat, v))
             elif k == "assign":
                 self.assign5(s, cx)
@@ -1348,7 +1508,8 @@ class FnT5(FnTranslator):
             bcx = Cx(self, cx.env, cx.depth + 1)
         else:
             _, x, lo, hi, incl, _ = s
-            t = self.ty(lo, None, cx.env) or self.ty(hi, None, cx.env) or self.infer_index_var(x, body)
+            t = self.ty(lo, None, cx.env) or self.ty(hi, None, cx.env) or self.infer_index_var(x, body) \
+                or self.later_type(x, (body[1], None, None), cx.env)
             if t not in INT:
                 self.fail("`for %s` whose range type is not determined" % x)
             self.need(lo, t, cx.env, t), self.need(hi, t, cx.env, t)
@@ -1469,6 +1630,29 @@ class LoopFlow:
         return "Val (Ret %s)" % v
 
 
+class ValFlow:
+    """end of a block used as a value"""
+
+    def __init__(self, exp):
+        self.exp = exp
+
+    def end(self, tr, tail, cx):
+        if tail is None:
+            tr.fail("block without a value")
+        v, pure = tr.emit(tail, self.exp, cx)
+        tr.need(tail, self.exp, cx.env, self.exp)
+        return [("Val " + paren(v)) if pure else v]
+
+    def ret(self, tr, e, cx):
+        tr.fail("`return` inside a block used as a value")
+
+    def brk(self, tr, cx):
+        tr.fail("`break` inside a block used as a value")
+
+    def retd(self, v):
+        raise Unsupported("loop with `return` inside a block used as a value")
+
+
 class EndFlow:
     """end of a conditional-assignment arm: the values of the assigned variables"""
 
@@ -1545,7 +1729,7 @@ def generate(repo, group, count=None):
             raise Unsupported("%s: fn %s: unsupported construct (internal translator error: %r)" % (rel, fname, e))
         key = (rel, owner, fname.split("::")[-1])
         if subst:
-            key = key + (tuple(sorted(subst.items())),)
+            key = key + (tuple(sorted(subst.items(), key=str)),)
         world.sigs.setdefault(key, sig)
         if rel == rel_g and (owners_g is None or owner in owners_g):
             count[0] += 1
